@@ -88,11 +88,35 @@ def _validate_shard(ctx, idx, recs):
     return validated, rej
 
 
-def validate(ctx, recs, shard=1500):
-    shards = [recs[i:i + shard] for i in range(0, len(recs), shard)]
+def _content_key(r):
+    return json.dumps({k: v for k, v in r.items() if k not in ("id", "profile", "code", "also")}, sort_keys=True)
+
+
+def validate(ctx, recs, shard=1200):
+    """Records with identical content (same input, same observation -- typically the debug and the release
+    build of one test) are decided once; `also` lists the ids/profiles that share the decision."""
+    uniq, index = [], {}
+    for r in recs:
+        k = _content_key(r)
+        if k in index:
+            index[k]["also"].append("%s/%s" % (r["id"], r["profile"]))
+        else:
+            r = dict(r)
+            r["also"] = []
+            index[k] = r
+            uniq.append(r)
+    mult = {id(r): 1 + len(r["also"]) for r in uniq}
+    # numeric records of the wide types are the expensive ones: spread them over the shards
+    uniq.sort(key=lambda r: (r["rt"] == "num" and r["ty"] in ("u128", "u256")))
+    cheap = [r for r in uniq if not (r["rt"] == "num" and r["ty"] in ("u128", "u256"))]
+    dear = [r for r in uniq if r["rt"] == "num" and r["ty"] in ("u128", "u256")]
+    shards = [cheap[i:i + shard] for i in range(0, len(cheap), shard)] + [dear[i:i + 250] for i in range(0, len(dear), 250)]
+    shards.sort(key=lambda s: -len(s) * (5 if s and s[0]["rt"] == "num" and s[0]["ty"] in ("u128", "u256") else 1))
     with ThreadPoolExecutor(max_workers=TLC_PAR) as ex:
         res = list(ex.map(lambda a: _validate_shard(ctx, a[0], a[1]), enumerate(shards)))
-    return sum(r[0] for r in res), [x for r in res for x in r[1]]
+    rej = [x for r in res for x in r[1]]
+    nrej = sum(mult.get(id(x[0]), 1) for x in rej)
+    return len(recs) - nrej, rej
 
 
 def execute(ctx, hist, cases, profile="debug", tag="p"):
